@@ -10,11 +10,11 @@ LEAVES_FULL = [("lit", (A,), False), ("lit", (A, B), False), ("lit", (UA,), True
                ("cls", (A, B), (), False, False), ("cls", (A,), (), True, False), ("cls", (), (A, B), False, True), ("any",)]
 LEAVES_SMALL = [("lit", (A,), False), ("lit", (), False), ("cls", (A,), (), True, False), ("any",)]
 LEAVES_UTF8 = [("lit", (EACUTE,), False), ("lit", (A, EURO), False), ("cls", (EACUTE, NL), (), False, False),
-               ("cls", (A,), (), True, False), ("any",), ("lit", (NL,), False)]
+               ("cls", (A,), (), True, False), ("any",), ("lit", (NL,), False), ("lit", (A, NL, A), False), ("lit", (A, NL), False)]
 
 
 PRED_LEAVES = [("pred", False, "true"), ("pred", True, "true"), ("pred", False, "false")]
-STATE_LEAVES = [("state", "set", "x", 1), ("state", "inc", "x", 1), ("state", "app", "cl", 2), ("pred", False, "eq", "x", 1)]
+STATE_LEAVES = [("state", "set", "x", 1), ("state", "inc", "x", 1), ("state", "app", "cl", 2), ("pred", False, "eq", "x", 1), ("state", "del", "x", 0), ("state", "set", "y", 2)]
 RUNES = {"a": [A], "b": [B], "A": [UA], "nl": [NL], "eacute": list("\u00e9".encode()), "euro": list("\u20ac".encode())}
 
 
@@ -172,7 +172,7 @@ def random_group(rng, gi, cfg):
         if k == "lact":
             return g.action(g.seq([g.label(expr(d - 1, refs, handlers, minlab)), expr(d - 1, refs, handlers, minlab)]), err=rng.random() < cfg.errs)
         if k == "state":
-            ops = ["set", "inc"] + (["app", "app"] if cfg.cloner else [])
+            ops = ["set", "inc", "del"] + (["app", "app"] if cfg.cloner else [])
             op = rng.choice(ops)
             return g.state(op, key=("cl" if op == "app" else rng.choice(["x", "y"])), arg=rng.randint(1, 3),
                            err=rng.random() < cfg.errs, g=(1 if cfg.gstore and rng.random() < 0.3 else 0))
